@@ -130,6 +130,8 @@ func verifNewRig(allowLocalhost bool, check string) *verifRig {
 	r.lite = verifParam("lite", 0) != 0
 	if !r.lite {
 		r.cacheOn = verifBool("cache")
+	} else {
+		r.cacheOn = verifParam("litecache", 0) != 0
 	}
 	cfg.Tables.ContentStore.Admit = r.cacheOn
 	cfg.Tables.ContentStore.Serve = r.cacheOn
@@ -223,6 +225,7 @@ type verifInterestIn struct {
 	hop      int // -1 absent
 	tok      []byte
 	nextHop  int // 0 = none
+	hint     enc.Name
 }
 
 func (r *verifRig) genInterest(allowLocalhost bool) verifInterestIn {
@@ -246,6 +249,9 @@ func (r *verifRig) genInterest(allowLocalhost bool) verifInterestIn {
 	case "C09":
 		if verifParam("nhfi", 0) != 0 && verifBool("nhfi") {
 			in.nextHop = 1 + verifChoice("nhface", len(r.faces))
+		}
+		if verifParam("hints", 0) != 0 && verifBool("hashint") {
+			in.hint = verifRigName("fh", 1, 1, allowLocalhost)
 		}
 	case "C02":
 		if r.lite {
@@ -274,6 +280,9 @@ func (r *verifRig) interest(in verifInterestIn, check string) {
 	if in.hop >= 0 {
 		hopv = byte(in.hop)
 		i.HopLimitV = &hopv
+	}
+	if in.hint != nil {
+		i.ForwardingHintV = &spec.Links{Names: []enc.Name{in.hint}}
 	}
 	pkt := &defn.Pkt{Name: in.name, L3: &spec.Packet{Interest: i}, Raw: []byte{0x05, 0x00}, PitToken: in.tok, IncomingFaceID: &in.face}
 	if in.nextHop != 0 {
@@ -410,6 +419,11 @@ func (r *verifRig) interest(in verifInterestIn, check string) {
 	}
 	nData := len(sends) - nInterests
 	if cachedHit {
+		if maybeDead && nData == 0 && nInterests == 0 {
+			// the dead nonce list is consulted before the content store: such an Interest may simply be dropped
+			mine.maybe = true
+			return
+		}
 		if check == "C01" {
 			verifAssert(nData == 1 && sends[0].face == in.face, "C01/cache-hit-goes-to-the-requesting-face-alone")
 			verifAssertBytesEq(sends[0].token, in.tok, "C01/cache-hit-carries-the-requesters-token")
@@ -707,3 +721,8 @@ func VerifC01_Script_IIAD() { verifFwScript("C01", false, []string{"IIAD"}) }
 func VerifC01_Script_IIDD() { verifFwScript("C01", false, []string{"IIDD"}) }
 func VerifC01_Script_IDID() { verifFwScript("C01", false, []string{"IDID"}) }
 func VerifC01_Script_IAID() { verifFwScript("C01", false, []string{"IAID"}) }
+
+// the same with the content store admitting and serving: cache hits, repeated Data, re-expression after a hit
+func VerifC01_Script_DID() { verifFwScript("C01", false, []string{"DID"}) }
+func VerifC01_Script_DII() { verifFwScript("C01", false, []string{"DII"}) }
+func VerifC01_Script_IDI() { verifFwScript("C01", false, []string{"IDI"}) }
